@@ -6,14 +6,16 @@ from vf.runner import Result
 
 ID = "C19"
 BUDGET = {"quick": 2000, "thorough": 30000}
-RULE = ("F77/F90 projection of G (program, module with CONTAINS, subroutine, function, block data; old/new style "
+RULE = ("F77/F90 projection of G (program, module with CONTAINS (subroutines and functions), subroutine, function, block data; old/new style "
         "declarations, IMPLICIT, PARAMETER, DATA, COMMON, DIMENSION, SAVE, EXTERNAL, derived types; IF/ELSE IF/ELSE, DO "
         "(plain, WHILE, labelled with CONTINUE/END DO), SELECT CASE, WHERE constructs; assignments, CALL, IF statements, "
         "I/O, GOTO/RETURN/STOP, FORMAT) in free and fixed form, analyze in {False, True}. Oracle: S1 = str(parse1(P)), "
         "S2 = str(parse1(S1)): statement lists equal after dropping the !BEGINSOURCE line, indentation and blanks after "
         "a label; the (class, depth) sequence of api.walk is equal for both parses and the depth sequence equals the "
         "generator's nesting; for every statement its expression texts occur unchanged in the corresponding line of S1 "
-        "(blanks removed, case-insensitive outside literals). Non-trivial = nesting depth >= 2 and a labelled or "
+        "(blanks removed, case-insensitive outside literals) and every name, number and literal of the source statement "
+        "occurs in that line (each occurrence consumed once, order not compared). FUNCTION statements carry optional "
+        "PURE/RECURSIVE/ELEMENTAL, a type in the prefix and RESULT. Non-trivial = nesting depth >= 2 and a labelled or "
         "construct-named statement.")
 MIN_NONTRIVIAL = 0.2
 MAX_PRECOND_FRACTION = 0.05
@@ -211,6 +213,24 @@ class G19(gen.Gen):
             items.append(Stmt("continue", "simple", label=lab))
         return items
 
+    def function19(self, nm):
+        """FUNCTION statement with the optional parts the standard allows: prefix words, a type in the prefix, RESULT"""
+        r, S = self.r, Stmt
+        pre = []
+        if r.chance(30):
+            pre.append(r.pick(["pure", "recursive", "elemental"]))
+        if r.chance(50):
+            pre.append(r.pick(["integer", "real", "logical", "double precision", "complex", "real(kind = 8)", "integer*4",
+                               "character(len = 8)", "real*8", "integer(kind = 4)"]))
+            if r.chance(50):
+                pre.reverse()
+        res = ""
+        if r.chance(40) or "recursive" in pre:
+            res = " result(%s)" % r.pick(["res", "r_out", "val"])
+        head = "%sfunction %s(%s)%s" % ("".join(p + " " for p in pre), nm, r.pick(["x", "x, y", ""]), res)
+        return Block("function", S(head, "function"), S("end function %s" % nm, "end"), [(None, self.unit_body(True))],
+                     unit=True)
+
     def program19(self):
         r = self.r
         units = []
@@ -227,8 +247,7 @@ class G19(gen.Gen):
                 units.append(Block("subroutine", S("subroutine %s(%s)" % (nm, r.pick(["x", "x, y", "n"])), "subroutine"),
                                    S("end subroutine %s" % nm, "end"), [(None, self.unit_body(True))], unit=True))
             elif k == "function":
-                units.append(Block("function", S("function %s(%s)" % (nm, r.pick(["x", "x, y"])), "function"),
-                                   S("end function %s" % nm, "end"), [(None, self.unit_body(True))], unit=True))
+                units.append(self.function19(nm))
             elif k == "module":
                 mn = self.fresh_unit_name(gen.MOD_NAMES)
                 decls = []
@@ -250,6 +269,9 @@ class G19(gen.Gen):
                     inner = []
                     for _ in range(r.n(1, 2)):
                         sn = self.fresh_unit_name()
+                        if r.chance(35):
+                            inner.append(self.function19(sn))
+                            continue
                         inner.append(Block("subroutine", S("subroutine %s(x)" % sn, "subroutine"),
                                            S("end subroutine %s" % sn, "end"), [(None, self.unit_body(True))], unit=True))
                     segs.append((S("contains", "contains"), inner))
@@ -289,7 +311,7 @@ def build(rnd, tier, flags):
         stmts.append({"depth": dd, "exprs": list(st.expr or []) if isinstance(st.expr, list) else [],
                       "label": st.label, "cname": st.cname, "kind": st.kind, "extra_walk": 1 if st.kind == "if_stmt" else 0})
     maxd = max(d for _, d in flat)
-    case = {"src": "\n".join(lines) + "\n", "fixed": fixed, "analyze": analyze, "stmts": stmts,
+    case = {"src": "\n".join(lines) + "\n", "fixed": fixed, "stmt_src": [st.src for st, _ in flat], "analyze": analyze, "stmts": stmts,
             "meta": {"depth": maxd, "labelled": any(st.label or st.cname for st, _ in flat)}}
     return case
 
@@ -311,6 +333,23 @@ def _squash(s):
     for part in re.split(r"('(?:[^']|'')*'|\"(?:[^\"]|\"\")*\")", s):
         out.append(part if part[:1] in "'\"" else part.replace(" ", "").lower())
     return "".join(out)
+
+
+def _words_missing(src_stmt, squashed_out):
+    """a name / number / literal of the source statement that does not occur in the regenerated line (each occurrence
+    is consumed once, longest first; order is not compared because prefix words may be re-ordered legitimately)"""
+    toks = []
+    for part in re.split(r"('(?:[^']|'')*'|\"(?:[^\"]|\"\")*\")", src_stmt):
+        if part[:1] in "'\"":
+            toks.append(part)
+        else:
+            toks += re.findall(r"[a-z_0-9]+", part.lower())
+    for t in sorted(toks, key=lambda t: (-len(t), t)):
+        j = squashed_out.find(t)
+        if j < 0:
+            return t
+        squashed_out = squashed_out[:j] + "\0" + squashed_out[j + len(t):]
+    return None
 
 
 def evaluate(case):
@@ -381,6 +420,7 @@ def evaluate(case):
         if d != st["depth"]:
             return Result(False, "nesting-differs:%s" % st["kind"], nontrivial, labels,
                           {"index": k, "class": cn, "depth": d, "expected": st["depth"], "line": b1[k] if k < len(b1) else None})
+    case_lines = case.get("stmt_src")
     if len(b1) == len(stmts):
         for k, (ln, st) in enumerate(zip(b1, stmts)):
             sq = _squash(ln)
@@ -388,6 +428,10 @@ def evaluate(case):
                 if _squash(e) not in sq:
                     return Result(False, "expression-text-changed:%s" % st["kind"], nontrivial, labels,
                                   {"index": k, "line": ln, "expression": e})
+            missing = _words_missing(case_lines[k], sq) if case_lines else None
+            if missing:
+                return Result(False, "token-lost:%s" % st["kind"], nontrivial, labels,
+                              {"index": k, "source": case_lines[k], "printed": ln, "token": missing})
             if st["label"] and not ln.startswith(st["label"] + " "):
                 return Result(False, "label-lost:%s" % st["kind"], nontrivial, labels, {"line": ln, "label": st["label"]})
     else:
